@@ -540,6 +540,40 @@ def run(ctx):
              ctx.loc(gn, tails[0]))
     rg = [c for c in ast.walk(tails[0].value) if isinstance(c, ast.Call) and
           U.call_name(c) == 'range'][0]
+    # ... but only indexes that were never started: an item after the last
+    # failed one that already has an execution must not run again (it would
+    # be counted twice, count == accepted never holds again and the task
+    # stays RUNNING for ever)
+    tv_ = tails[0].value
+    filt = []
+    for x in ast.walk(tv_):
+        if isinstance(x, (ast.ListComp, ast.GeneratorExp, ast.SetComp)):
+            for g in x.generators:
+                if any(c is rg for c in ast.walk(g.iter)):
+                    for i_ in g.ifs:
+                        at = []
+                        U._atoms(i_, True, at)
+                        for a_, t_ in at:
+                            if isinstance(a_, ast.Compare) and \
+                                    isinstance(a_.ops[0], ast.In) and \
+                                    t_ is False and \
+                                    norm(a_.left) == norm(g.target):
+                                filt.append(a_.comparators[0])
+        if isinstance(x, ast.BinOp) and isinstance(x.op, ast.Sub) and \
+                any(c is rg for c in ast.walk(x.left)):
+            filt.append(x.right)
+
+    def _reads_all_executions(e, depth=4):
+        ce = U.canon_expr(gn.node, e, depth)
+        return any(dotted(y) == 'self.task_ex.executions'
+                   for y in ast.walk(ce))
+    r8.check(any(_reads_all_executions(e) for e in filt),
+             ctx.construct(gn, tails[0], extra='tail skips started items'),
+             'after the items to re-run every index up to the item count is '
+             'scheduled again, including items that already have an '
+             'execution: with item 0 failed and items 1, 2 succeeded a rerun '
+             'without reset runs 1 and 2 again, five results are accepted '
+             'for three items and the task never completes', ctx.loc(gn, tails[0]))
     r8.check(norm(U.canon_expr(gn.node, rg.args[1])) in (
         cnt[0], 'self._get_with_items_count()'),
         ctx.construct(gn, rg, extra='tail ends at the item count'),
